@@ -258,6 +258,18 @@ func wShr(a, s *Term, w int) *Term {
 				return NZ(u)
 			}
 		}
+		// (^u & (u-1)) >> 63 is "u = 0"
+		if at := a.SingleAtom(); at != nil && at.Kind == IWOp && at.Op == "and" && len(at.Args) == 2 {
+			for i := 0; i < 2; i++ {
+				u := wNot(at.Args[i], w)
+				if inRange(u, w) {
+					dec := u.Sub(TInt(1)).Add(LT(u, TInt(1)).Scale(pow2(w)))
+					if at.Args[1-i].Equal(dec) {
+						return EQZ(u)
+					}
+				}
+			}
+		}
 		return BIT(a, w-1)
 	}
 	if win, ok := a.window(n, w-n); ok {
@@ -519,6 +531,12 @@ func (it *Interp) binop(op token.Token, a, b Value, operandT, resT types.Type, f
 		r = arith(x.Add(y), "add", rw, rsigned, x, y)
 	case token.SUB:
 		r = arith(x.Sub(y), "sub", rw, rsigned, x, y)
+		// unsigned x - c wraps exactly when x < c
+		if at := r.SingleAtom(); at != nil && at.Kind == IWOp && at.Op == "sub" && !rsigned && inRange(x, rw) {
+			if c, isC := y.IsConst(); isC && c.Sign() > 0 && c.BitLen() <= rw {
+				r = x.Sub(y).Add(LT(x, y).Scale(pow2(rw)))
+			}
+		}
 	case token.MUL:
 		r = arith(x.Mul(y), "mul", rw, rsigned, x, y)
 	case token.QUO, token.REM:
